@@ -692,6 +692,27 @@ Example shared_lazy_example :
      Some [FCaller; FTask 0; FTask 1; FHelper 1]]%Z.
 Proof. reflexivity. Qed.
 
+(* Known findings, the model says what the code does.  A non-task future holding an instance that was
+   never raised: set_error saves nothing, the first reader task that fails with it prepares it, and
+   every later observer -- a second reader task, the driver itself -- gets that reader's frame. *)
+Theorem fresh_shared_error_leaks_reader : forall h1 h2,
+  map (option_map user_frames)
+      (shared_observations KErrorFuture EFresh HSync [[(h1, false)]; [(h2, false)]; []])
+  = [Some [FCaller; FReader 0 0]; Some [FCaller; FReader 1 0; FReader 0 0];
+     Some [FCaller; FReader 1 0; FReader 0 0]]%Z.
+Proof. intros [] []; reflexivity. Qed.
+
+(* An instance without _task thrown into an awaiting generator loses the frames it had: the site
+   that prepared it outside any task, the provider of a lazy Future; a synchronous look keeps them. *)
+Theorem awaited_taskless_error_loses_frames : forall drv,
+  map (option_map user_frames) (shared_observations KErrorFuture EPrepared drv [[(HAwait, false)]])
+  = [Some [FCaller; FReader 0 0]] /\
+  map (option_map user_frames) (shared_observations KLazy EFresh drv [[(HAwait, false)]])
+  = [Some [FCaller; FReader 0 0]] /\
+  map (option_map user_frames) (shared_observations KErrorFuture EPrepared drv [[(HSync, false)]])
+  = [Some [FCaller; FReader 0 0; PREP_SITE]].
+Proof. intros []; repeat split; reflexivity. Qed.
+
 (* ========================================================================================== *)
 (** * Part C — creator chain                                                                   *)
 
